@@ -118,6 +118,7 @@ func profileFor(prop string) profile {
 		p.hot = []string{"polling.onPollRequest", "polling.onDataRequest", "polling.send", "polling.write", "polling.DoWrite", "polling.DoClose", "HttpContext.Write", "HttpContext.Flush", "server.HandleRequest"}
 	case "C12":
 		p.faultFree, p.pAppClose, p.pServerClose, p.pUpgrade = 0.2, 0.9, 0.3, 0.4
+		p.pReent, p.pCB = 0.2, 0.5 // (closes issued from inside listeners and send callbacks)
 		p.hot = []string{"socket.Close", "socket.closeTransport", "polling.DoClose", "polling.send", "websocket.DoClose", "websocket.send", "socket.flush", "socket.OnClose", "baseServer.Close"}
 	case "C16":
 		p.faultFree, p.pPolling, p.pUpgrade, p.pCompression, p.pJSONP, p.pB64, p.pEIO3 = 0.8, 1, 0.1, 0.9, 0.3, 0.3, 0.4
@@ -131,6 +132,7 @@ func profileFor(prop string) profile {
 		p.faultFree, p.pAppClose, p.pServerClose, p.pUpgrade, p.maxClients = 0.2, 0.6, 0.1, 0.4, 3
 	case "C09":
 		p.faultFree = 0
+		p.pCandScript = 0.35
 	}
 	return p
 }
